@@ -25,6 +25,9 @@ type Obligation struct {
 
 // Unit verifies one function body against its contract.
 type Unit struct {
+	havocRoots  []*ssa.Function // set right before havocAll: what the havoc stands for
+	havocSelf   *ssa.Function
+	havocRooted bool
 	pureMemo map[string][]Value
 	w        *World
 	pkg      *PkgInfo
